@@ -12,7 +12,7 @@ pub struct World {
     pub vsel: u64,
 }
 
-pub const AUTO_VERBOSITY_NOTE: &str = "runs whose case does not fix a verbosity use 0 / -v / -vv / -vvv for 70 / 10 / 10 / 10 % of the chains (chosen by a hash of the indexed block hashes, so that partner runs of one case share it); a fifth of the chains write into a dump folder that already holds longer stale temporary files of the same callback; a third of the chains run with the release build of the tool; an eighth of the chains run with stdout on a pseudo terminal and an eighth with a shifted wall clock; likewise 40 % of the chains are run with the blockchain directory and the dump folder spelled differently on the command line (relative to the working directory, with trailing slashes, with ./ and /../ detours) and TZ set to a far-off zone";
+pub const AUTO_VERBOSITY_NOTE: &str = "runs whose case does not fix a verbosity use 0 / -v / -vv / -vvv for 70 / 10 / 10 / 10 % of the chains (chosen by a hash of the indexed block hashes, so that partner runs of one case share it); a fifth of the chains write into a dump folder that already holds longer stale temporary files of the same callback; the worker pool has 1..130 threads (per chain); a third of the chains run with the release build of the tool; an eighth of the chains run with stdout on a pseudo terminal and an eighth with a shifted wall clock; likewise 40 % of the chains are run with the blockchain directory and the dump folder spelled differently on the command line (relative to the working directory, with trailing slashes, with ./ and /../ detours) and TZ set to a far-off zone";
 
 impl World {
     /// writes the plan into <scratch>/data
@@ -66,6 +66,10 @@ impl World {
             if let Ok(r) = std::env::var("VP_TOOL_BIN_REL_AUTO") {
                 o.bin = Some(std::path::PathBuf::from(r));
             }
+        }
+        // the size of the worker pool is a per-chain choice as well (runs that do not set it used to get 2 workers)
+        if o.threads.is_none() {
+            o.threads = Some([1u32, 2, 2, 3, 4, 8, 16, 33, 64, 130][((self.vsel >> 58) % 10) as usize]);
         }
         // half of the Bitcoin chains are run without `-c` (Bitcoin is the default coin)
         if (self.vsel >> 55) % 2 == 0 {
